@@ -187,7 +187,51 @@ def r4_reads_are_never_pruned(ctx):
     r2_effect_tables(ctx)
 
 
-RULES = [("C17-R1", r1_no_discarded_overread), ("C17-R2", r2_terminator_and_eof), ("C17-R3", r3_each_byte_once_and_unchanged), ("C17-R4", r4_reads_are_never_pruned)]
+def r5_no_stdin_lock_while_the_program_runs(ctx):
+    """read_line takes std's process-wide stdin lock for the duration of one call.  The lock is not re-entrant: a front end that
+    still holds a StdinLock when it starts the program (the CLI reading the script itself from stdin) makes the first
+    read_line wait for ever."""
+    n = 0
+    if ctx.bin is None:
+        ctx.bad("stdin-lock|no-bin", "src/bin", "the CLI crate was not exported")
+        return
+    for fn in ctx.bin.fns.values():
+        locks = [i for i, l in enumerate(fn.locals) if "StdinLock" in l["ty"] and not l["ty"].lstrip().startswith("&")]
+        if not locks:
+            continue
+        ctx.touch(fn)
+        runs = [c for c in fn.calls() if (c.callee or "").split("::")[-1] in ("run_source", "run_with_analysis", "run") and ("cmd::" in (c.callee or "") or "Runtime" in (c.callee or ""))]
+        for l in locks:
+            n += 1
+            defs = [b for (b, k, st) in fn.whole_defs(l)]
+            ends = {b for b in sorted(fn.live) if (fn.blocks[b]["t"]["k"] == "drop" and fn.blocks[b]["t"]["of"]["l"] == l and not fn.blocks[b]["t"]["of"]["p"])}
+            # a move of the guard out of the local also ends this local's hold
+            for b in sorted(fn.live):
+                for st in fn.blocks[b]["s"]:
+                    a = st["rv"].get("a") if st["rv"]["k"] == "use" else None
+                    if isinstance(a, dict) and a.get("move") and a["move"]["l"] == l and not a["move"]["p"]:
+                        ends.add(b)
+                t = fn.blocks[b]["t"]
+                if t["k"] == "call" and any(isinstance(a, dict) and a.get("move") and a["move"]["l"] == l and not a["move"]["p"] for a in t.get("args", [])):
+                    ends.add(b)
+            held = set()
+            for d in defs:
+                t_d = fn.blocks[d]["t"]
+                ends_here = (t_d["k"] == "drop" and t_d["of"]["l"] == l) or (t_d["k"] == "call" and any(isinstance(a, dict) and a.get("move") and a["move"]["l"] == l and not a["move"]["p"] for a in t_d.get("args", [])))
+                if ends_here and not any(k == "t" for (b, k, st) in fn.whole_defs(l) if b == d):
+                    continue    # defined by a statement and consumed by the terminator of the same block
+                held |= fn.reach_from_succ(d, removed_nodes=ends)
+            bad = [c for c in runs if c.block in held]
+            name = fn.locals[l]["name"] or "_%d" % l
+            if bad:
+                ctx.bad("stdin-lock|held-while-running|%s" % parent_fn(fn.id), fn.where(bad[0].block), "%s still holds the stdin lock (`%s`) when it calls %s: a read_line in the program then blocks on the same lock for ever (a script piped into `naija -` that reads input hangs)" % (parent_fn(fn.id).split("::")[-1], name, (bad[0].callee or "").split("::")[-1]))
+            else:
+                ctx.ok("stdin-lock|released-before-running|%s" % parent_fn(fn.id), fn.where(defs[0]) if defs else fn.where(), "the guard `%s` is dropped before the program is started" % name)
+    if n == 0:
+        ctx.ok("stdin-lock|none", "src/bin", "no body of the CLI holds a StdinLock")
+
+
+RULES = [("C17-R1", r1_no_discarded_overread), ("C17-R2", r2_terminator_and_eof), ("C17-R3", r3_each_byte_once_and_unchanged), ("C17-R4", r4_reads_are_never_pruned), ("C17-R5", r5_no_stdin_lock_while_the_program_runs)]
 
 EXPLANATION = (
     "R1: in the host implementation of Stdin::read_line (resolved through the sys::stdin alias from GlobalBuiltin::read_line) "
